@@ -57,6 +57,12 @@ var lemClone = Harness{Dir: "bsonkit", Func: "H_LEM_clone", Quick: P{"eagerclone
 var lemCloneFresh = Harness{Dir: "bsonkit", Func: "H_LEM_clone_fresh", Quick: P{"eagerclone": 1, "depth": 1}, Thorough: P{"eagerclone": 1, "depth": 2, "tags": (TAll &^ TBinary) | TFlatArr},
 	Note: "lemma: a clone shares no mutable memory with its source (binary payloads excepted, as documented)"}
 
+const stQuickTags = TNull | TInt32 | TString | TArray
+
+var stBounds = []string{"canonical state: namespace db.c with <= maxdocs documents {_id: i, a?: X, b?: Y} inserted through the real Transaction.Insert, optional secondary index on a (unique or not, partial {b: {$gt: c}} or not); X from tags (arrays <= 2 elements of ctags), Y int32/null",
+	"operation: insert (with/without _id), replace, update-one, update-many, delete (one/many), upsert with filters {}, {_id: k}, {a: v} and updates $set a, $inc a, $set b, $push a; index create (a or b, unique, partial), index drop, namespace/database drop, retention, expiry where stated",
+	"outside: Decimal128, compound indexes, more documents than stated (covered by the induction argument), the codec"}
+
 const c10Tags =TNull | TInt32 | TInt64 | TDouble | TString | TBool | TArray | TDoc
 
 var checks = []Check{
@@ -69,12 +75,115 @@ var checks = []Check{
 			{Dir: "mongokit", Func: "H_C10_andor", Quick: P{"ddepth": 0, "vdepth": 0, "dlen": 2, "dtags": TNull | TInt32 | TString, "vtags": TInt32 | TString},
 				Thorough: P{"ddepth": 1, "vdepth": 0, "dlen": 2, "dtags": TNull | TInt32 | TDouble | TString | TArray, "vtags": TInt32 | TDouble | TString}},
 			{Dir: "mongokit", Func: "H_C10_refcmp", Quick: P{"ddepth": 1, "vdepth": 0, "dlen": 1}, Thorough: P{"ddepth": 2, "vdepth": 1}},
+			{Dir: "mongokit", Func: "H_C10_not2", Quick: P{"ddepth": 0, "vdepth": 0, "dlen": 1, "dtags": TNull | TInt32 | TString | TArray, "vtags": TInt32 | TString}, Thorough: P{"ddepth": 1, "vdepth": 0, "dlen": 1}},
+			{Dir: "mongokit", Func: "H_C10_reftype", Quick: P{"ddepth": 1, "dlen": 1}, Thorough: P{"ddepth": 2}},
 			{Dir: "mongokit", Func: "H_C10_refmisc", Quick: P{"ddepth": 1, "dlen": 1}, Thorough: P{"ddepth": 2}},
 		},
 		Assumptions: commonAssumptions,
 		Bounds: []string{"document: <= 2 fields (keys a,b), values null/int32/int64/double/string/bool/array/document, arrays and sub-documents of length <= 2, nesting depth ddepth; paths from {a,b,a.a,a.0,a.0.a,c}; operands any value of the same domain with depth vdepth",
 			"oracle harnesses (refcmp, refmisc) restrict to the core domain of the property: no arrays directly inside arrays; fan-out over sub-documents only with a non-null scalar operand",
 			"outside: $jsonSchema, Decimal128, regex operands, date/timestamp/objectid/binary field values in the filter harnesses (covered for Compare by C12)"},
+	},
+	{
+		Property: "C15",
+		Harnesses: []Harness{
+			{Dir: ".", Func: "H_STEP", Quick: P{"prop": 1, "maxdocs": 1, "tags": stQuickTags, "ctags": TInt32}, Thorough: P{"prop": 1, "maxdocs": 2, "tags": stQuickTags, "ctags": TInt32}, Note: "document writes from the canonical state"},
+			{Dir: ".", Func: "H_STEP", Quick: P{"prop": 1, "maxdocs": 1, "allops": 1, "op": 7, "tags": stQuickTags, "ctags": TInt32}, Thorough: P{"prop": 1, "maxdocs": 2, "op": 7, "tags": stQuickTags, "ctags": TInt32}, Note: "index creation"},
+			{Dir: ".", Func: "H_STEP", Quick: P{"prop": 1, "maxdocs": 1, "op": 8, "tags": stQuickTags, "ctags": TInt32}, Thorough: P{"prop": 1, "maxdocs": 2, "op": 8, "tags": stQuickTags, "ctags": TInt32}, Note: "index drop"},
+			{Dir: ".", Func: "H_C06_roundtrip", Quick: P{"maxdocs": 1, "tags": stQuickTags, "ctags": TInt32}, Thorough: P{"maxdocs": 2, "tags": stQuickTags, "ctags": TInt32}, Note: "reload: rebuilt indexes are coherent"},
+			lemClone,
+		},
+		Assumptions: append([]string{"inductive step: the pre-state is a catalog built through the real API from a symbolic document list and index configuration (DESIGN.md 3.4); closure under histories of any length is the written induction argument, not a solver fact"}, commonAssumptions...),
+		Bounds:      stBounds,
+	},
+	{
+		Property: "C07",
+		Harnesses: []Harness{
+			{Dir: ".", Func: "H_STEP", Quick: P{"prop": 2, "maxdocs": 1, "tags": stQuickTags, "ctags": TInt32}, Thorough: P{"prop": 2, "maxdocs": 2, "tags": stQuickTags, "ctags": TInt32}},
+			{Dir: ".", Func: "H_STEP", Quick: P{"prop": 2, "maxdocs": 1, "op": 7, "tags": stQuickTags, "ctags": TInt32}, Thorough: P{"prop": 2, "maxdocs": 2, "op": 7, "tags": stQuickTags, "ctags": TInt32}, Note: "unique index build over existing documents"},
+			lemClone,
+		},
+		Assumptions: append([]string{"inductive step from the canonical state (DESIGN.md 3.4); the pre-state is assumed duplicate-free and the same predicate is asserted of every post-state"}, commonAssumptions...),
+		Bounds:      stBounds,
+	},
+	{
+		Property: "C02",
+		Harnesses: []Harness{
+			{Dir: ".", Func: "H_STEP", Quick: P{"prop": 4, "maxdocs": 1, "tags": stQuickTags, "ctags": TInt32}, Thorough: P{"prop": 4, "maxdocs": 2, "tags": stQuickTags, "ctags": TInt32}},
+			{Dir: ".", Func: "H_STEP", Quick: P{"prop": 4, "maxdocs": 1, "op": 7, "tags": stQuickTags, "ctags": TInt32}, Thorough: P{"prop": 4, "maxdocs": 2, "op": 7, "tags": stQuickTags, "ctags": TInt32}, Note: "failing index creation"},
+			{Dir: ".", Func: "H_STEP", Quick: P{"prop": 4, "maxdocs": 1, "op": 8, "tags": stQuickTags, "ctags": TInt32}, Thorough: P{"prop": 4, "maxdocs": 2, "op": 8, "tags": stQuickTags, "ctags": TInt32}, Note: "failing index drop"},
+			lemClone, lemCloneFresh,
+		},
+		Assumptions: append([]string{"inductive step from the canonical state (DESIGN.md 3.4); freeze monitor: every heap slot, map and btree node reachable from the pre-call catalog is marked and any store into it is a violation"}, commonAssumptions...),
+		Bounds:      stBounds,
+	},
+	{
+		Property: "C08",
+		Harnesses: []Harness{
+			{Dir: ".", Func: "H_STEP", Quick: P{"prop": 8, "maxdocs": 1, "index": 0, "tags": stQuickTags, "ctags": TInt32}, Thorough: P{"prop": 8, "maxdocs": 2, "tags": stQuickTags, "ctags": TInt32}},
+			{Dir: ".", Func: "H_C08_clean", Quick: P{"maxevents": 3}, Thorough: P{"maxevents": 4}},
+			lemClone,
+		},
+		Assumptions: append([]string{"clock model: time.Now returns arbitrary non-decreasing instants between 2001 and 2100 (so the uint32 age arithmetic of Clean cannot wrap); bsonkit.Now runs from its real SSA on top of it"}, commonAssumptions...),
+		Bounds:      append([]string{"retention: oplog of <= maxevents events with symbolic timestamps, min/max size in 0..4, min age in {0,1s,10s,1h}, max age in {1s,10s,1h}; the clock does not tick during the call; at the exact boundary second of the maximum age either outcome is accepted", "update events: updatedFields/removedFields faithfulness is covered only through the full-document replay (field-level diff is outside this check)"}, stBounds...),
+	},
+	{
+		Property: "C03",
+		Harnesses: []Harness{
+			{Dir: ".", Func: "H_STEP", Quick: P{"prop": 16, "maxdocs": 1, "tags": stQuickTags, "ctags": TInt32}, Thorough: P{"prop": 16, "maxdocs": 2, "tags": stQuickTags, "ctags": TInt32}, Note: "snapshot immutability under every document write"},
+			{Dir: ".", Func: "H_STEP", Quick: P{"prop": 16, "maxdocs": 1, "allops": 1, "tags": TInt32 | TString, "ctags": TInt32, "partial": 0}, Thorough: P{"prop": 16, "maxdocs": 2, "allops": 1, "tags": TInt32 | TString | TArray, "ctags": TInt32}, Note: "snapshot immutability under index builds/drops, namespace drops, retention and expiry"},
+			lemClone, lemCloneFresh,
+		},
+		Assumptions: append([]string{"immutability is decided by the freeze monitor on the engine's heap model (slice backing arrays, maps, the real btree nodes): a store into anything reachable from an earlier catalog is a violation on any path; atomic visibility of session transactions (commit/abort) is covered by the engine-level harnesses listed here, interleavings by C04"}, commonAssumptions...),
+		Bounds:      stBounds,
+	},
+	{
+		Property: "C19",
+		Harnesses: []Harness{
+			{Dir: ".", Func: "H_C19_expire", Quick: P{"maxdocs": 1}, Thorough: P{"maxdocs": 2}},
+			lemClone,
+		},
+		Assumptions: append([]string{"clock model: arbitrary non-decreasing instants; the pass is bracketed by two clock readings t0 <= now <= t1: documents older than t0-expiry must go, documents not older than t1-expiry must stay, in between either outcome is accepted"}, commonAssumptions...),
+		Bounds:      []string{"one collection with 0-1 TTL index on t (expiry 1ns as mapped from expireAfterSeconds 0, 1s, 1h) next to an optional non-TTL index, <= maxdocs documents whose t is a date, int32, int64, string, null, an array (<=2) of dates/int32, or missing; a second collection without TTL index; millisecond granularity"},
+	},
+	{
+		Property: "C06",
+		Harnesses: []Harness{
+			{Dir: ".", Func: "H_C06_roundtrip", Quick: P{"maxdocs": 1, "tags": stQuickTags, "ctags": TInt32}, Thorough: P{"maxdocs": 2, "tags": stQuickTags, "ctags": TInt32}},
+			lemClone,
+		},
+		Assumptions: append([]string{"the mongo-driver BSON codec (bson.Marshal/Unmarshal of the File struct) is NOT encoded: value-level fidelity of the codec (int32 vs int64, NaN, -0, binary subtypes) is outside this check; the claim covers lungo's own BuildFile/BuildCatalog/index rebuild logic only"}, commonAssumptions...),
+		Bounds:      stBounds,
+	},
+	{
+		Property: "C13",
+		Harnesses: []Harness{
+			{Dir: "mongokit", Func: "H_C13_find", Quick: P{"maxdocs": 2, "tags": TInt32 | TString}, Thorough: P{"maxdocs": 2}},
+			{Dir: "mongokit", Func: "H_C13_find", Thorough: P{"maxdocs": 3, "tags": TInt32 | TString}, Note: "three documents, scalar sort keys"},
+			{Dir: "mongokit", Func: "H_C13_write", Quick: P{"maxdocs": 2, "tags": TInt32 | TString}, Thorough: P{"maxdocs": 2}},
+			{Dir: "mongokit", Func: "H_C13_distinct", Quick: P{"maxdocs": 2, "useb": 0}, Thorough: P{"maxdocs": 3, "useb": 0}},
+		},
+		Assumptions: commonAssumptions,
+		Bounds: []string{"collection of <= maxdocs documents {_id: i, a?: X, b?: Y} built through the real Insert; X: null/int32/double/string or an array (<=2) of null/int32/string; Y: int32/string",
+			"sort specification: none, one key or two keys over {a,b} in either order with symbolic directions; filter: none or {b: {$gte: c}}; skip and limit: every non-negative int (64 bit)",
+			"oracle: stable insertion sort with a comparator written from the manual (arrays rank by min ascending / max descending), window in unbounded arithmetic; compares document identities",
+			"outside: Decimal128; negative limit"},
+	},
+	{
+		Property: "C11",
+		Harnesses: []Harness{
+			{Dir: "mongokit", Func: "H_C11_inc", Quick: P{}, Thorough: P{}},
+			{Dir: "mongokit", Func: "H_C11_mul", Quick: P{}, Thorough: P{}},
+			{Dir: "mongokit", Func: "H_C11_ref", Quick: P{"ddepth": 1, "tags": TNull | TInt32 | TString | TArray}, Thorough: P{"ddepth": 1}},
+			{Dir: "mongokit", Func: "H_C11_idem", Quick: P{"ddepth": 1, "tags": TNull | TInt32 | TString | TArray | TDoc}, Thorough: P{"ddepth": 1}},
+			{Dir: "mongokit", Func: "H_C11_modified", Quick: P{"ddepth": 0, "tags": TNull | TInt32 | TDouble | TString | TArray}, Thorough: P{"ddepth": 1}},
+			lemClone,
+		},
+		Assumptions: commonAssumptions,
+		Bounds: []string{"$inc: every int32/int64/double pair incl. a missing field; $mul: every pair with a double or two int32; products involving an int64 only for |operands| < 2^31 (64x64-bit symbolic multiplication is out of reach: stated bound)",
+			"field operators vs reference semantics: document {a?,b?} (<=2 fields, values null/int32/double/string/array/document of int32/string), top-level target a,b,c; operands of the same domain; $pull with scalar/array operands",
+			"idempotence / untouched fields: paths a,b,c,a.a,a.0,a.1,b.a; modified-count and rejected-update checks go through the real Collection.Update with the canonical-encoding stub for bson.Marshal",
+			"outside: Decimal128, $currentDate values (stubbed clock), positional operators ($[], $[id]) beyond the no-panic check of C20, $push modifiers beyond C20's no-panic check"},
 	},
 	{
 		Property: "C14",
@@ -97,7 +206,7 @@ var checks = []Check{
 			{Dir: "mongokit", Func: "H_C20_match_leaf", Quick: P{"path_n": 4, "ctags": TNull | TInt32 | TString}, Thorough: P{}},
 			{Dir: "mongokit", Func: "H_C20_match_top", Quick: P{"path_n": 4, "ctags": TNull | TInt32 | TString}, Thorough: P{}},
 			{Dir: "mongokit", Func: "H_C20_match_nested", Thorough: P{}},
-			{Dir: "mongokit", Func: "H_C20_match_num", Thorough: P{}},
+			{Dir: "mongokit", Func: "H_C20_match_num", Quick: P{"op": 4, "path_n": 2}, Thorough: P{}, Note: "quick: $mod only"},
 			{Dir: "mongokit", Func: "H_C20_apply_basic", Quick: P{"path_n": 6}, Thorough: P{}},
 			{Dir: "mongokit", Func: "H_C20_apply_push", Thorough: P{}},
 			{Dir: "mongokit", Func: "H_C20_apply_spec", Quick: P{}, Thorough: P{}},
@@ -119,6 +228,9 @@ var checks = []Check{
 		Property: "C12",
 		Harnesses: []Harness{
 			{Dir: "bsonkit", Func: "H_C12_antisym", Quick: P{"tags": TScalars, "depth": 0}, Thorough: P{"tags": TAll, "depth": 2}},
+			{Dir: "bsonkit", Func: "H_C12_antisym", Quick: P{"tags": TNull | TInt32 | TString | TArray | TDoc, "depth": 1}, Thorough: P{"tags": TNull | TInt32 | TString | TArray | TDoc, "depth": 2},
+				Note: "containers: documents/arrays that differ late or in length"},
+			{Dir: "bsonkit", Func: "H_C12_containers", Quick: P{"maxlen": 2}, Thorough: P{"maxlen": 3, "ctags": TNull | TInt32 | TDouble | TString | TBool}},
 			{Dir: "bsonkit", Func: "H_C12_class", Quick: P{"tags": TAll, "depth": 1}, Thorough: P{"tags": TAll, "depth": 1}},
 			{Dir: "bsonkit", Func: "H_C12_exact", Quick: P{}, Thorough: P{}},
 			{Dir: "bsonkit", Func: "H_C12_trans", Quick: P{"tags": TNull | TNumbers | TString | TBool, "depth": 0}, Thorough: P{"tags": TScalars | TArray, "depth": 1}},
